@@ -1,7 +1,8 @@
 ----------------------------- MODULE Trace_Drbg -----------------------------
 (* code -> spec: events recorded from real drbg.HashDrbg / HmacDrbg / CtrDrbg *)
-(* objects (harness cmd/record, family drbg; SM3 / HMAC-SM3 / SM4, NIST and   *)
-(* GM/T 0105 modes, test level) must be a behaviour of DrbgObj.  Each event   *)
+(* objects (harness cmd/record, family drbg; SM3 / SHA-256 / HMAC over them /  *)
+(* SM4 / AES-128/192/256, NIST mode, and SM3 / SM4 in GM/T 0105 mode, test      *)
+(* level) must be a behaviour of DrbgObj.  Each event   *)
 (* enables exactly the DrbgObj action of its name with the logged inputs; the *)
 (* logged reply class, NeedReseed() observation and output bytes must be the  *)
 (* ones the action defines.  "new" starts the next recorded history.          *)
@@ -10,7 +11,7 @@ CONSTANT TraceFile
 Hx == INSTANCE Hex
 Tr == ndJsonDeserialize(TraceFile)
 VARIABLE l
-tvars == <<inst, mech, gm, st, lastReseed, now, reply, l>>
+tvars == <<inst, mech, gm, alg, st, lastReseed, now, reply, l>>
 Ev == Tr[l]
 IsEvent(op) == l <= Len(Tr) /\ Tr[l].op = op /\ l' = l + 1
 (* the specification leaves open which error is reported when two apply *)
@@ -18,7 +19,7 @@ Match(kind, logged) == kind = logged \/ (kind = "anyerr" /\ logged # "ok")
 
 TNew    == IsEvent("new") /\ Drop
 TInst   == /\ IsEvent("inst")
-           /\ Instantiate(Ev.mech, Ev.gm, Hx!ToBytes(Ev.e), Hx!ToBytes(Ev.n), Hx!ToBytes(Ev.p))
+           /\ Instantiate(Ev.mech, Ev.gm, Ev.alg, Hx!ToBytes(Ev.e), Hx!ToBytes(Ev.n), Hx!ToBytes(Ev.p))
            /\ Match(reply'.kind, Ev.res)
            /\ (Ev.res = "ok" => Ev.max = AdvertisedMax(Ev.mech, Ev.gm))
 TGen    == /\ IsEvent("gen")
